@@ -9,6 +9,8 @@ def run(tier, seed):
     chain_composition_cases(res, random.Random(seed), tier)
     res.rule += (" | plus the real MiddlewareChain over scripted components (admit / refuse with a response / refuse without one / raise), "
                  "every chain of up to 3 (thorough: 4) components, Gemini and Titan requests through the real protocol")
+    titan_path_agreement_cases(res)
+    res.rule += " | plus Titan lines whose path contains ';' and dot segments: the path in the URL the chain is consulted with is the path the upload handler acts on"
     import tlsextra
     tmp = scratch_dir("nv-c04-")
     try:
@@ -83,3 +85,38 @@ def chain_composition_cases(res, rng, tier):
                                    "signature": "C04:chain-composition",
                                    "case": {"components": list(chain), "request": line.decode("latin-1")},
                                    "trace": {"components_consulted": consulted, "handlers_invoked": calls, "client_received": wire[:80].decode("latin-1"), "closed": closed}})
+
+
+def titan_path_agreement_cases(res):
+    """ "The chain is consulted with ... the request URL": for a Titan request the chain and the upload handler must be talking about
+    the same path.  Titan lines whose path contains ';' that is not the start of the parameters, with dot segments after it."""
+    import asyncio, serverdrv as sd
+    from urllib.parse import urlsplit
+    from nauyaca.server.protocol import GeminiServerProtocol
+    from nauyaca.protocol.response import GeminiResponse
+    lines = [b"titan://h.example/pub;v=1/../private/plan.gmi;size=5;mime=text/gemini\r\nhello", b"titan://h.example/a;b/c;size=5\r\nhello",
+             b"titan://h.example/pub;x/../../private/p;size=5;token=t\r\nhello", b"titan://h.example/private/plan.gmi;size=5;mime=text/gemini\r\nhello",
+             b"titan://h.example/drafts;mime=x/../private/new.gmi;size=5\r\nhello", b"titan://h.example/p;size=5;mime=text/plain;token=a;b\r\nhello"]
+    async def one(line):
+        seen_chain, seen_handler, acts = [], [], []
+        class MW:
+            async def process_request(self, url, ip, fp=None): seen_chain.append(url); return True, None
+        class UP:
+            async def handle_upload(self, req): seen_handler.append(req.path); return GeminiResponse(20, "text/gemini", "stored")
+        p = GeminiServerProtocol(lambda r: GeminiResponse(20, "text/plain", "x"), MW(), UP())
+        t = sd.FakeTransport(acts, ("192.0.2.1", 5), None)
+        p.connection_made(t); p.data_received(line)
+        for i in range(60):
+            if t.closed: break
+            await asyncio.sleep(0 if i < 20 else 0.002)
+        if p.timeout_handle: p.timeout_handle.cancel()
+        return seen_chain, seen_handler, b"".join(a[1] for a in acts if a[0] == "w")
+    async def go(): return [(l, await one(l)) for l in lines]
+    for line, (seen_chain, seen_handler, wire) in asyncio.run(go()):
+        res.evaluations += 1; res.count("titan-path-agreement"); res.nontriv(("titan-path-agreement", line))
+        if not seen_handler: continue                      # refused before any handler: nothing to compare
+        chain_path = urlsplit(seen_chain[0]).path.split(";", 1)[0] if seen_chain else None
+        if len(seen_chain) != 1 or chain_path != seen_handler[0]:
+            res.violations.append({"clause": "the chain is consulted with the request URL: the path in that URL (up to the Titan parameters) is the path the upload handler is given",
+                                   "signature": "C04:titan-path-agreement", "case": {"request": line.decode("latin-1")},
+                                   "trace": {"url_given_to_the_chain": seen_chain, "its_path": chain_path, "path_given_to_the_upload_handler": seen_handler, "client_received": wire[:40].decode("latin-1")}})
